@@ -103,8 +103,23 @@ fn svm_err_param(e: &str) -> Option<&'static str> {
 }
 
 /// applies the solver epsilon and the nested Platt parameters of `case` to an existing builder
+fn kernel_param() -> Param {
+    free(
+        "kernel",
+        "linfa-svm/src/hyperparams.rs:129-148 kernel setters (no validated field)",
+        vec![(Sym::S("linear"), "default"), (Sym::S("gaussian"), "gaussian"), (Sym::S("polynomial"), "polynomial")],
+    )
+}
+
 fn common<F: Float, T>(p: SvmParams<F, T>, case: &Case) -> SvmParams<F, T> {
     let mut p = if case.moved(&["eps"]) { p.eps(F::cast(case.f("eps"))) } else { p };
+    if case.moved(&["kernel"]) {
+        p = match case.s("kernel") {
+            "gaussian" => p.gaussian_kernel(F::cast(2.0)),
+            "polynomial" => p.polynomial_kernel(F::cast(1.0), F::cast(2.0)),
+            _ => p.linear_kernel(),
+        };
+    }
     if case.vals.iter().any(|v| v.name == "platt_maxiter") && case.moved(&["platt_maxiter", "platt_minstep", "platt_sigma"]) {
         p = p.with_platt_params(
             Platt::params()
@@ -119,7 +134,7 @@ fn common<F: Float, T>(p: SvmParams<F, T>, case: &Case) -> SvmParams<F, T> {
 macro_rules! classification_spec {
     ($fname:ident, $name:expr, $t:ty, $nu:expr) => {
         pub fn $fname() -> BuilderSpec {
-            let mut params = vec![eps_param()];
+            let mut params = vec![eps_param(), kernel_param()];
             if $nu {
                 params.push(nu_param());
             } else {
@@ -176,6 +191,7 @@ pub fn svm_regression_c_spec() -> BuilderSpec {
         floats: &["f64", "f32"],
         params: vec![
             eps_param(),
+            kernel_param(),
             // far inside = 1e3: eps-SVR with C = 1e10 needs minutes on 8 points
             c_param("c", 1e3),
             Param {
@@ -198,6 +214,7 @@ pub fn svm_regression_nu_spec() -> BuilderSpec {
         floats: &["f64", "f32"],
         params: vec![
             eps_param(),
+            kernel_param(),
             nu_param(),
             Param {
                 name: "c",
